@@ -43,6 +43,27 @@ func vmTrimSpace(s string) string {
 	return s[lo:hi]
 }
 
+func vmInSet(c byte, set string) bool {
+	for i := 0; i < len(set); i++ {
+		if set[i] == c {
+			return true
+		}
+	}
+	return false
+}
+
+// vmTrim models strings.Trim for an ASCII cutset.
+func vmTrim(s, cutset string) string {
+	lo, hi := 0, len(s)
+	for lo < hi && vmInSet(s[lo], cutset) {
+		lo++
+	}
+	for hi > lo && vmInSet(s[hi-1], cutset) {
+		hi--
+	}
+	return s[lo:hi]
+}
+
 func vmToLower(s string) string {
 	out := ""
 	for i := 0; i < len(s); i++ {
